@@ -131,6 +131,14 @@ func analyse(repo string, rules []*Rule, o LoadOpts) (*archResult, error) {
 	}
 	programs.Store(p.SSA, p)
 	defer programs.Delete(p.SSA)
+	rm := p.roles()
+	defer func() {
+		for fn := range rm.canon {
+			if fd := declOf(fn); fd != nil {
+				declCanonical.Delete(fd)
+			}
+		}
+	}()
 	for _, r := range rules {
 		res.Obs = append(res.Obs, runRule(p, r)...)
 	}
